@@ -69,6 +69,23 @@ pub fn __abs_build_children<T>(chance_infosets: &mut CT, player_infosets: &mut P
 pub open spec fn with_prev(prev: [Option<usize>; 2], num: PlayerNum, ind: usize) -> (Option<usize>, Option<usize>) {
     match num { PlayerNum::One => (Some(ind), prev[1]), PlayerNum::Two => (prev[0], Some(ind)) }
 }
+// R6: the arms that intern an infoset / handle a single-action node (under contract above, or not
+// covered: see the unit's assumptions) as uninterpreted functions of what they are given
+pub uninterp spec fn chance_node_spec<CI>(info: Option<CI>, probs: Seq<f64>, outcomes: Seq<Node>) -> Result<Node, GameError>;
+#[verifier::external_body]
+pub fn __abs_chance_node<CI>(chance_infosets: &mut CT, info: Option<CI>, probs: Vec<f64>, outcomes: Vec<Node>) -> (r: Result<Node, GameError>)
+    ensures r == chance_node_spec(info, probs@, outcomes@),
+{ unimplemented!() }
+pub uninterp spec fn single_action_spec<I, A, T>(num: PlayerNum, infoset: I, actions: Seq<A>, nexts: Seq<T>, prev: [Option<usize>; 2]) -> Result<Node, GameError>;
+pub uninterp spec fn decision_spec<I, A, T>(num: PlayerNum, infoset: I, actions: Seq<A>, nexts: Seq<T>, prev: [Option<usize>; 2]) -> Result<Node, GameError>;
+#[verifier::external_body]
+pub fn __abs_single_action<I, A, T>(chance_infosets: &mut CT, player_infosets: &mut PT, single_infosets: &mut ST, num: PlayerNum, infoset: I, actions: Vec<A>, nexts: Vec<T>, prev: [Option<usize>; 2]) -> (r: Result<Node, GameError>)
+    ensures r == single_action_spec(num, infoset, actions@, nexts@, prev),
+{ unimplemented!() }
+#[verifier::external_body]
+pub fn __abs_decision<I, A, T>(chance_infosets: &mut CT, player_infosets: &mut PT, single_infosets: &mut ST, num: PlayerNum, infoset: I, actions: Vec<A>, nexts: Vec<T>, prev: [Option<usize>; 2]) -> (r: Result<Node, GameError>)
+    ensures r == decision_spec(num, infoset, actions@, nexts@, prev),
+{ unimplemented!() }
 // `*info.actions != *actions` / `*data.probs != *probs`: slice comparison, element by element with the
 // element type's == (assumed to be equality of the abstract values: Eq coherence of user types; for
 // f64 the IEEE ==, under which a stored NaN never compares equal)
@@ -183,5 +200,29 @@ ensures
             Ok(kids) => out is Ok && out->Ok_0 == Node::Player(Player { num: player_num, infoset: ind, actions: kids }),
         },
     }, // @ob C11.V.init_recurse.recall_bookkeeping"""),
+        dict(file="src/lib.rs", path="impl Game / fn init_recurse", arm_re=r"(?=match outcomes\.len\(\) \{)", arm_count=1,
+             as_fn="init_recurse__chance_dispatch", generics="<CI>",
+             params="mut outcomes: Vec<Node>, probs: Vec<f64>, info: Option<CI>, chance_infosets: &mut CT",
+             ret="out", ret_type="Result<Node, GameError>",
+             obligation="C11.V.init_recurse.chance_dispatch", rules=[], allow_return=True,
+             body_subst=[(r"(?s)_ => \{\s*// renormalize to make sure consistency.*Ok\(Node::Chance\(Chance::new\(outcomes, ind\)\)\)\s*\}", "_ => __abs_chance_node(chance_infosets, info, probs, outcomes),", "R6 multi-outcome arm (renormalisation + interning) abstracted")],
+             contract="""ensures
+    // every chance node has at least one outcome; a chance node with ONE outcome is no chance node (its
+    // subtree takes its place); otherwise the node is interned
+    outcomes@.len() == 0 ==> out is Err && out->Err_0 == GameError::EmptyChance, // @ob C11.V.init_recurse.empty_chance
+    outcomes@.len() == 1 ==> out == Ok::<Node, GameError>(outcomes@[0]), // @ob C11.V.init_recurse.single_outcome_elided
+    outcomes@.len() >= 2 ==> out == chance_node_spec(info, probs@, outcomes@), // @ob C11.V.init_recurse.chance_dispatch"""),
+        dict(file="src/lib.rs", path="impl Game / fn init_recurse", arm_re=r"(?=match actions\.len\(\) \{)", arm_count=1,
+             as_fn="init_recurse__player_dispatch", generics="<I, A, T>",
+             params="actions: Vec<A>, nexts: Vec<T>, player_num: PlayerNum, infoset: I, prev_infosets: [Option<usize>; 2], chance_infosets: &mut CT, player_infosets: &mut PT, single_infosets: &mut ST",
+             ret="out", ret_type="Result<Node, GameError>",
+             obligation="C11.V.init_recurse.player_dispatch", rules=[], allow_return=True,
+             body_subst=[(r"(?s)1 => \{\s*let action = actions\.pop\(\)\.unwrap\(\);.*?\n                    \}\n", "1 => __abs_single_action(chance_infosets, player_infosets, single_infosets, player_num, infoset, actions, nexts, prev_infosets),\n", "R6 single-action arm abstracted"),
+                         (r"(?s)_ => \{\s*let info_ind = match player_num\.ind_mut\(player_infosets\).*\}\)\)\s*\}", "_ => __abs_decision(chance_infosets, player_infosets, single_infosets, player_num, infoset, actions, nexts, prev_infosets),", "R6 multi-action arm abstracted (under contract as init_recurse__decision_node)")],
+             contract="""ensures
+    // every decision node has at least one action; single-action nodes take the exempt route
+    actions@.len() == 0 ==> out is Err && out->Err_0 == GameError::EmptyPlayer, // @ob C11.V.init_recurse.empty_player
+    actions@.len() == 1 ==> out == single_action_spec(player_num, infoset, actions@, nexts@, prev_infosets), // @ob C11.V.init_recurse.player_dispatch
+    actions@.len() >= 2 ==> out == decision_spec(player_num, infoset, actions@, nexts@, prev_infosets), // @ob C11.V.init_recurse.player_dispatch"""),
     ],
 )
